@@ -204,6 +204,14 @@ pub fn run(id: &'static str, tier: Tier, seed: u64) -> i32 {
     for k in 1..=3 {
         plans.push(Plan { space: mk(k), k, with_q: true, lists: vec![0, 1, 2], label: format!("K={k} full alphabet, 3 signal lists, device-read bounds") });
     }
+    {
+        // deep nesting (up to 5 levels) over a small alphabet
+        let add = |a: Expr, b: Expr| bin(BinOp::Add, a, b);
+        let datoms = vec![Stmt::Row(row()), Stmt::Let("a".into(), add(name("a"), lit(1))), Stmt::Let("n".into(), name("i"))];
+        let dblocks = vec![Block::Loop("i".into(), lit(2)), Block::Loop("a".into(), lit(1)), Block::Loop("n".into(), name("n")), Block::While(bin(BinOp::Lt, name("a"), lit(203)))];
+        let kk = tier.pick(5, 7);
+        plans.push(Plan { space: ForestSpace::new(datoms, dblocks, 5, kk), k: kk, with_q: false, lists: vec![0], label: format!("K={kk} nesting up to 5 over a small alphabet (row, two lets, three loops, one while)") });
+    }
     match tier {
         Tier::Quick => {
             if !c18 {
